@@ -208,8 +208,14 @@ def run_kani(filters, jobs, harness_timeout_s, mem_gb, exact=False, playback=Fal
     os.makedirs(WORK, exist_ok=True)
     cmd = kani_cmd(filters, jobs, harness_timeout_s, exact=exact, playback=playback, cbmc_args=cbmc_args)
     t0 = time.time()
-    import signal
-    proc = subprocess.Popen(cmd, cwd=REPO, env=base_env(), stdout=subprocess.PIPE, stderr=subprocess.STDOUT,
+    import signal, shutil, tempfile
+    # solver scratch files (CBMC's smt2_dec_*, external-sat*.cnf) of killed runs would pile up in /tmp:
+    # give every invocation a private TMPDIR under the work directory and remove it afterwards
+    os.makedirs(os.path.join(WORK, "tmp"), exist_ok=True)
+    tmpdir = tempfile.mkdtemp(prefix="run-", dir=os.path.join(WORK, "tmp"))
+    env = base_env()
+    env["TMPDIR"] = tmpdir
+    proc = subprocess.Popen(cmd, cwd=REPO, env=env, stdout=subprocess.PIPE, stderr=subprocess.STDOUT,
                             text=True, errors="replace", preexec_fn=limit_mem(mem_gb))
     try:
         out, _ = proc.communicate(timeout=overall_timeout)
@@ -227,6 +233,7 @@ def run_kani(filters, jobs, harness_timeout_s, mem_gb, exact=False, playback=Fal
     except (ProcessLookupError, PermissionError):
         pass
     wall = time.time() - t0
+    shutil.rmtree(tmpdir, ignore_errors=True)
     if logname:
         os.makedirs(os.path.join(WORK, "logs"), exist_ok=True)
         with open(os.path.join(WORK, "logs", logname), "w") as f:
